@@ -66,6 +66,7 @@ import CweModel.C13.DataProps
 import CweModel.C13.EvalProps
 import CweModel.C13.StackProps
 import CweModel.C13.CondProps
+import CweModel.C13.JoinProps
 
 namespace CweModel.C13
 open CweModel CweModel.IR CweModel.Itv
@@ -336,5 +337,54 @@ example (σ0 σ : Sem.State)
   · rintro i s ⟨rfl, rfl⟩
     exact ⟨[], rfl, fun _ _ hm => by cases hm⟩
 end FrameExample
+
+/-! ### the join and call theorems applied (the hypotheses are satisfiable) -/
+section JoinCallApplied
+open CondEx
+
+theorem exM_size8 : Size8 exM.st := by
+  intro v d hm
+  simp only [exM, List.mem_cons, Prod.mk.injEq, List.not_mem_nil, or_false] at hm
+  rcases hm with ⟨_, rfl⟩ | ⟨_, rfl⟩ <;> decide
+
+-- `merge_sound_partial`: the merge of the example state with itself still represents the example machine state
+example : ∃ m, exM.merge exM = some m ∧ m.In exρ exσ2 ∧ m.WF ∧ Size8 m.st ∧ m.stackId = exM.stackId :=
+  merge_sound_partial exM_wf exM_wf rfl (by unfold RegKeys; decide) (by unfold RegKeys; decide) exM_size8 exM_size8
+    (oa := { unique := true, mem := [] }) (ob := { unique := true, mem := [] }) rfl rfl (by unfold ObjKeys; decide)
+    (Or.inl exM_in)
+
+/-- the machine state after a call that pops the return address and clobbers `RAX` -/
+def exσ3 : Sem.State := (exσ2.setReg exRAX (Bv.ofNat 64 77)).setReg exRSP (Bv.ofNat 64 0x7ffd00000ff8)
+
+theorem stateWF_setReg {σ : Sem.State} (h : C10.StateWF σ) (v : Variable) (x : Bv) (hx : x.w = 8 * v.size) :
+    C10.StateWF (σ.setReg v x) := by
+  intro w
+  rw [C10.getReg_setReg]
+  split
+  · rename_i e; rw [e]; exact hx
+  · exact h w
+
+theorem exAbi : AbiCall exRSP [exRBX] exσ2 exσ3 := by
+  refine ⟨?_, ?_, ?_⟩
+  · have h1 : exσ3.getReg exRSP = Bv.ofNat 64 0x7ffd00000ff8 := by
+      unfold exσ3; rw [C10.getReg_setReg, if_pos rfl]
+    have h2 : exσ2.getReg exRSP = Bv.ofNat 64 0x7ffd00000ff0 := by
+      unfold exσ2; rw [C10.getReg_setReg, if_neg (by decide), C10.getReg_setReg, if_pos rfl]
+    rw [h1, h2]
+    exact Bv.ext' rfl (by decide)
+  · intro v hv hne
+    simp only [List.mem_singleton] at hv
+    subst hv
+    unfold exσ3
+    rw [C10.getReg_setReg, if_neg (by decide), C10.getReg_setReg, if_neg (by decide)]
+  · exact stateWF_setReg (stateWF_setReg (stateWF_setReg (stateWF_setReg (C10.stateWF_default 1) _ _ rfl) _ _ rfl) _ _ rfl) _ _ rfl
+
+-- `updateCallStub_sound_partial`: after the call the example state (stack pointer popped, `RAX` forgotten) represents it
+example : ∃ s', updateCallStub exM exRSP { JoinEx.cc with calleeSavedRegister := [exRBX] } JoinEx.ext = some s' ∧
+    s'.In exρ exσ3 ∧ s'.WF ∧ s'.stackId = exM.stackId :=
+  updateCallStub_sound_partial exM_wf exM_in (sp := exRSP) rfl (by decide) (o := { unique := true, mem := [] }) rfl exAbi
+    (fun _ c hc => absurd hc List.not_mem_nil)
+
+end JoinCallApplied
 
 end CweModel.C13
